@@ -89,13 +89,18 @@ fn build(c: &'static Coin, case: &Case) -> ChainBuilder {
                 txs.push(Tx { version: 1, segwit: false, inputs: vec![TxIn::spend([0xee; 32], k as u32)], outputs: chunk.iter().enumerate().map(|(j, s)| TxOut { value: 100 + (k * 5 + j) as u64, script: s.clone() }).collect(), locktime: 0, wide: 0 });
             }
         }
+        // a block record without a single transaction (no valid chain has one, a blk file may): it still is a block of the
+        // range, with a size and a time, and contributes nothing else
+        if case.label == "blocks without transactions" && [1usize, 2, 4].contains(&(i % 5)) {
+            txs.clear();
+        }
         let prev = cb.tip_hash();
         // on merged-mined chains every block but the first carries an AuxPoW section whose parent header has its own time
         let merged = case.label == "merged-mined blocks" && i > 0;
         let version = if merged { c.auxpow_from.unwrap() + 2 } else { 1 };
         let mut b = Block::build(version, prev, *t, 0x1d00ffff, i as u32, txs);
         if merged {
-            b.auxpow = Some(refmodel::ser::AuxPow { parent_coinbase: coinbase(9, 9, vec![pay(9, 9)]), parent_hash: [9; 32], coinbase_branch: vec![[1; 32]; 2], coinbase_mask: 1, chain_branch: vec![], chain_mask: 0, parent_header: refmodel::ser::Header { version: 0x2000_0000, prev: [3; 32], merkle: [4; 32], time: t.wrapping_add(7200 * (i as u32 % 3)).wrapping_sub(5), bits: 6, nonce: 7 } });
+            b.auxpow = Some(refmodel::ser::AuxPow { parent_coinbase: coinbase(9, 9, vec![pay(9, 9)]), parent_hash: [9; 32], coinbase_branch: vec![[1; 32]; 2], coinbase_mask: 1, chain_branch: vec![], chain_mask: 0, branch_wide: 0, parent_header: refmodel::ser::Header { version: 0x2000_0000, prev: [3; 32], merkle: [4; 32], time: t.wrapping_add(7200 * (i as u32 % 3)).wrapping_sub(5), bits: 6, nonce: 7 } });
         }
         cb.blocks.push(b);
     }
@@ -141,6 +146,11 @@ pub fn run() -> Report {
             cases.push(Case { coin: cn, base: 0, times: (0..n).map(|i| 1000 + 600 * i as u32).collect(), mix: 1, cb_delta: 31337, types_world: false, label: "coinbases above and below the subsidy in one range" });
         }
         cases.push(Case { coin: cn, base: 0, times: vec![1000, 2000, 1500], mix: 1, cb_delta: 7, types_world: true, label: "every script type" });
+        for n in [2usize, 3, 5, 6, 11] {
+            for mix in [0u8, 1, 4] {
+                cases.push(Case { coin: cn, base: 0, times: (0..n).map(|i| 1000 + 450 * i as u32).collect(), mix, cb_delta: 40, types_world: false, label: "blocks without transactions" });
+            }
+        }
         cases.push(Case { coin: cn, base: 0, times: vec![1000, 2000, 1500], mix: 4, cb_delta: 7, types_world: true, label: "every script type" });
     }
     for cn in ["bitcoin", "litecoin"] {
